@@ -304,6 +304,17 @@ def generate(rng, profile):
                             continue
                         if name == "obs" or is_clim_party or rng.random() < 0.5:
                             g[i][j][s_] = 0.0
+    if rng.random() < p.get("p_inf", 0.0):
+        # infinite values (a sensor overflow, a division upstream): verif drops them like missing values
+        for _ in range(rng.randint(1, 2)):
+            party = rng.choice(parties)
+            names = [n for n in party["fields"] if field_kind(n)[0] in ("fcst", "ens", "q", "other", "obs")]
+            if not names:
+                continue
+            g = party["fields"][rng.choice(sorted(names))]
+            i, j, s_ = rng.randrange(len(g)), rng.randrange(len(g[0])), rng.randrange(len(g[0][0]))
+            if g[i][j][s_] is not None:
+                g[i][j][s_] = float("inf") if rng.random() < 0.5 else float("-inf")
     if n_parties == 1 and rng.random() < p.get("p_no_id", 0.0):
         # a single text file without a location/id column: verif numbers the stations itself
         parties[0]["format"] = "text"
@@ -364,6 +375,8 @@ def _miss_token(party, i, j, s, f):
 
 
 def _fmt_num(v):
+    if v in (float("inf"), float("-inf")):
+        return "inf" if v > 0 else "-inf"
     if float(v) == int(v) and abs(v) < 1e15:
         return "%d" % int(v)
     return repr(float(v))
